@@ -35,6 +35,7 @@ import (
 
 	"github.com/NibiruChain/nibiru/v2/app"
 	"github.com/NibiruChain/nibiru/v2/eth"
+	"github.com/NibiruChain/nibiru/v2/x/common/asset"
 	"github.com/NibiruChain/nibiru/v2/x/common/testutil"
 	devgastypes "github.com/NibiruChain/nibiru/v2/x/devgas/v1/types"
 	epochstypes "github.com/NibiruChain/nibiru/v2/x/epochs/types"
@@ -122,7 +123,10 @@ type c20World struct {
 
 var c20Price = big.NewInt(1_000_000_000_000)
 
-func c20Genesis() app.GenesisState {
+// candidate oracle pairs for whitelist edits
+var c20Pairs = []asset.Pair{"ubtc:uusd", "ueth:uusd", "uatom:uusd", "unibi:uusd", "uusdc:uusd"}
+
+func c20Genesis(emptyWhitelist bool) app.GenesisState {
 	enc := app.MakeEncodingConfig()
 	gen := app.GenesisState{}
 	gen[epochstypes.ModuleName] = enc.Codec.MustMarshalJSON(epochstypes.DefaultGenesisFromTime(GenesisTime))
@@ -131,12 +135,15 @@ func c20Genesis() app.GenesisState {
 	og.Params.MinVoters = 1
 	og.Params.SlashWindow = 1 << 40
 	og.Params.ExpirationBlocks = 40
+	if emptyWhitelist {
+		og.Params.Whitelist = nil
+	}
 	gen[oracletypes.ModuleName] = enc.Codec.MustMarshalJSON(og)
 	return gen
 }
 
-func newC20World(t *testing.T) *c20World {
-	w := &c20World{t: t, c: NewChain(c20Genesis()), prevotes: map[int]c20Prevote{}, root: testutil.ADDR_SUDO_ROOT}
+func newC20World(t *testing.T, emptyWhitelist bool) *c20World {
+	w := &c20World{t: t, c: NewChain(c20Genesis(emptyWhitelist)), prevotes: map[int]c20Prevote{}, root: testutil.ADDR_SUDO_ROOT}
 	c := w.c
 	c.BeginBlock(5 * time.Second)
 	for i := 0; i < 3; i++ {
@@ -480,6 +487,17 @@ func (w *c20World) apply(op c20Op) {
 				break
 			}
 		}
+	case "or_params": // sudo root edits the oracle whitelist (bitmask A over the candidate pairs); takes effect at the period end
+		w.block(5*time.Second, func(ctx sdk.Context) {
+			var wl []asset.Pair
+			for i, p := range c20Pairs {
+				if (1+abs(op.A))&(1<<i) != 0 {
+					wl = append(wl, p)
+				}
+			}
+			_, err := oraclekeeper.NewMsgServerImpl(c.App.OracleKeeper, c.App.SudoKeeper).EditOracleParams(ctx, &oracletypes.MsgEditOracleParams{Sender: w.root, Params: &oracletypes.OracleParamsMsg{Whitelist: wl}})
+			w.note(err)
+		})
 	case "or_alloc": // oracle reward allocation of A+1 unibi over 1+B%4 periods (keeper API; no message exists)
 		w.block(5*time.Second, func(ctx sdk.Context) {
 			coins := Unibi(int64(1000 * (1 + abs(op.A)%50)))
